@@ -1,6 +1,7 @@
 """C13 - matching is sound and complete."""
 import copy
 from .common import *  # noqa
+from .shared import *  # noqa
 from vc.speclemmas import LIB
 from contracts.pattern_family import c12_contracts
 from contracts.matching import match_single_contract, MatchLoop, match_contract
@@ -26,12 +27,17 @@ def build(repo, tier):
     fm = repo.func(PM, 'match')
     cm = match_contract(loop)
     units.append(Unit('C13/py/match', verify_unit(repo, cs, fm, cm, opts={'loops': {('match', 0): loop}})))
+    du, dt, dfn = merge(destructuring_units(repo, cs, 'C13', unwrap_classes=('Implies', 'App'), meths=('unwrap',)),
+                        simplify_units(repo, cs, 'C13'), eq_units(repo, cs, 'C13'),
+                        family_units(repo, cs, 'C13', 'instantiate'))
+    units += du
+    targets.update(dt)
     return PropSpec('C13', units, LIB, targets, trusted=TRUSTED_ENGINE,
                     assumptions=PY_ASSUMPTIONS + [
                         'match_single mutates the dict passed as `extend`; the caller-visible mutation is not modelled (its callers rebind or discard the argument)',
                         'completeness is decided for solutions rho that are total on the metavariables of the (substitution-free) pattern',
                         'dict insertion order of the returned substitution is not part of the contract'],
-                    functions=[(PFILE, 'match_single'), (PFILE, 'match')])
+                    functions=[(PFILE, 'match_single'), (PFILE, 'match')] + dfn)
 
 
 def _ms_enum(arm, kind):
